@@ -1,4 +1,5 @@
 import DeepModel.Driver.GuardRun
+import DeepModel.Extracted.HostTouch
 open Lean Proto GuardRun
 
 def handle (j : Json) : Except String Json := do
@@ -6,6 +7,13 @@ def handle (j : Json) : Except String Json := do
   | "resolve" => handleResolve j
   | "resolve_text" => handleResolveText j
   | "exec" => handleExec j
+  | "host_touch" =>
+    -- the (kind, protocol) pairs of the extracted host-touch table, and which of them the frame condition allows
+    let kindName : HostTouch.Kind → String
+      | .read => "read" | .write => "write" | .call => "call" | .enter => "enter" | .arith => "arith"
+      | .consume => "consume" | .pass => "pass"
+    pure (Json.mkObj [("rows", Json.arr (Extracted.HostTouch.ops.map (fun o =>
+      Json.arr #[Json.str (kindName o.kind), Json.str o.proto, toJson o.ok])).eraseDups.toArray)])
   | op => throw s!"unknown op {op}"
 
 def main : IO Unit := serve handle
